@@ -51,9 +51,12 @@ pub fn check_window(state: &State, probed: &std::collections::BTreeSet<u8>, max_
                 );
             }
         }
-        if latest_largest > 0 && !ttls.is_empty() {
+        if !ttls.is_empty() {
             o.hit("target_hop_is_latest_path_length");
-            if target != latest_largest && latest_largest >= lowest_probed && probed.contains(&latest_largest) {
+            if latest_largest == 0 {
+                o.hit("silent_round_has_no_target_hop");
+            }
+            if latest_largest > 0 && target != latest_largest && latest_largest >= lowest_probed && probed.contains(&latest_largest) {
                 o.violate("target_hop_is_latest_path_length", site, format!("{ctx}: target hop ttl {target}, latest path length {latest_largest}"), replay.clone());
             }
             for (t, (is_t, in_r)) in ttls.iter().zip(&flags) {
@@ -115,7 +118,12 @@ fn e2e_scenario(seed: u64, i: usize, tier: Tier) -> Outcome {
         t
     };
     let dist = topo.distance();
-    let wcfg = world_cfg(topo, seed ^ i as u64);
+    let mut wcfg = world_cfg(topo, seed ^ i as u64);
+    // outages: whole rounds in which nothing answers, after rounds in which something did
+    if r.chance(1, 3) {
+        let from = r.range(1, 5) * 40_000_000;
+        wcfg.blackouts.push((from, from + r.range(1, 3) * 40_000_000));
+    }
     let site = cell.name();
     let replay = replay_of("C10", seed, i, &tcfg, &wcfg.topo);
     let Some((world, run)) = run_guarded(&wcfg, &tcfg, true, |_| {}, &mut o, &site, &replay, &format!("scenario {i}")) else {
@@ -262,6 +270,7 @@ pub fn run(tier: Tier, seed: u64, only: Option<String>) -> i32 {
         "target_hop_is_latest_path_length",
         "stable_path_length_is_true_distance",
         "nothing_answers_means_zero_and_empty",
+        "silent_round_has_no_target_hop",
         "largest_ttl_from_genuine_responses",
     ];
     let n = tier.pick(1500, 30_000);
